@@ -252,7 +252,7 @@ func (d *defaultValidator) validateDefaultValueSchemaAgainstSchema(path, in stri
 	res := pools.poolOfResults.BorrowResult()
 	s := d.SpecValidator
 
-	if schema.Default != nil {
+	if schema.Default != nil && s.canValidateAgainst(schema) {
 		// validate against a copy: the validator expands a $ref in place, and schema may point into the parsed spec
 		sch := *schema
 		res.Merge(
